@@ -242,6 +242,7 @@ func (h *hist) setup() {
 	p := w.app.MarginKeeper.GetParams(w.ctx)
 	p.LeverageMax = h.decChoice("2", "3", "5", "10", "1.5")
 	p.SafetyFactor = h.decChoice("1.05", "1.05", "1.01", "1.3", "1.6", "0.5", "0", "0", "0.000000000000000001", "1")
+	p.PoolOpenThreshold = h.decChoice("0.1", "0.1", "0.5", "0.9", "0.93", "0.99", "1")
 	p.InterestRateMin = h.decChoice("0.005", "0.005", "0", "0.000001", "0.05")
 	p.InterestRateMax = h.decChoice("3", "0.5", "0.01", "1")
 	p.InterestRateIncrease = h.decChoice("0.1", "1", "0.01")
@@ -576,12 +577,14 @@ func (h *hist) doSwap(sent, recv string, amt *big.Int) {
 func (h *hist) opParams() {
 	w, rng := h.w, h.rng
 	p := w.app.MarginKeeper.GetParams(w.ctx)
-	switch rng.Intn(15) {
+	switch rng.Intn(17) {
 	case 12, 13: // the administrator closes everything: the real MsgAdminCloseAll raises the safety factor to 100
 		// (and zeroes the force-close fund percentage unless the fund cut is asked for); the next epoch hook
 		// then liquidates positions that still have value — collateral and fund share leave the module
 		h.adminCloseAll(rng.Bool())
 		return
+	case 15, 16: // the pool-open threshold: pools whose recorded health is at or below it are locked for opening
+		p.PoolOpenThreshold = h.decChoice("0.1", "0.5", "0.9", "0.93", "0.99", "1")
 	case 14:
 		p.SafetyFactor = h.decChoice("2", "10", "100", "1.5")
 		p.ForceCloseFundPercentage = h.decChoice("0.1", "0.5", "0")
@@ -823,6 +826,29 @@ func (h *hist) directed(kind int) {
 			}
 			h.opBlock()
 		}
+	case 11: // owner closes while the pool is locked for opening: pool-open threshold raised to 0.93 through
+		// MsgUpdateParams, leveraged opens push the recorded pool health to 0.95 and then 0.91 (locked: a further
+		// open is refused), then the owners close, in mid-epoch and at a boundary, on both collateral sides
+		p.PoolOpenThreshold = sdk.MustNewDecFromStr("0.93")
+		p.EpochLength = 3
+		h.setParams(&p)
+		for !h.opBlock() {
+		}
+		big20 := func(sym string, native bool) *big.Int {
+			return new(big.Int).Quo(h.poolDepth(sym, native), big.NewInt(20))
+		}
+		h.doOpen(h.traders[0], "rowan", "cusdc", big20("cusdc", true), margintypes.Position_LONG, sdk.NewDec(2))
+		h.doOpen(h.traders[1], "rowan", "cusdc", big20("cusdc", true), margintypes.Position_LONG, sdk.NewDec(2))
+		h.doOpen(h.traders[2], "rowan", "cusdc", big20("cusdc", true), margintypes.Position_LONG, sdk.NewDec(2)) // refused: locked
+		h.doOpen(h.traders[0], "ceth", "rowan", big20("ceth", false), margintypes.Position_LONG, sdk.NewDec(2))
+		h.doOpen(h.traders[1], "ceth", "rowan", big20("ceth", false), margintypes.Position_LONG, sdk.NewDec(2))
+		h.doClose(h.traders[0], 1) // at the boundary block
+		h.opBlock()
+		h.doClose(h.traders[0], k.GetMTPCount(w.ctx)-1) // in mid-epoch
+		h.doClose(h.traders[1], 2)
+		h.doClose(h.traders[1], k.GetMTPCount(w.ctx))
+		h.opBlock()
+		h.opBlock()
 	case 5: // every pool at once: positions on both sides of every pool, two epoch boundaries, everything closed
 		// again — a lookup of "the positions of pool X" that also returns those of a pool whose symbol
 		// merely starts with X (or of X + the start of an address) shows here as custody moved on the wrong pool
@@ -986,7 +1012,7 @@ func init() {
 			}
 			h := &hist{w: w, out: out, rng: rng, fixedPools: nhist == 4, evenPools: nhist == 9}
 			h.setup()
-			if nhist < 11 {
+			if nhist < 12 {
 				h.directed(nhist)
 				nhist++
 				continue
